@@ -28,7 +28,7 @@
 #define DOC_CPCACONVERGENCE 1e-18
 #define DOC_PCACONVERGENCE 1e-10
 
-static long ncases(int tier) { return tier ? 40000 : 1000; }
+static long ncases(int tier) { return tier ? 40000 : 2500; }
 
 static const size_t NPROCS[] = { 2, 3, 5, 8, 0 /* rows+3 */ };
 
